@@ -108,6 +108,7 @@ def scenario(seed, scratch: Path, rep: Report, max_points):
                 await target(fb)
             except BaseException:
                 failed = True
+            fb.dead = True          # the process is gone (killed, or exited with the error): nothing further is issued
             await _settle(fb)
             rep.case((seed, target_kind, mode, k), nontrivial=k > 0)
             rep.count('mode=' + mode)
